@@ -2,8 +2,9 @@
    The gap floor(ln u / ln(1-p)) is a floating-point computation in the crate. Over the reals
    floor(ln u / ln(1-p)) = g  iff  (1-p)^(g+1) < u <= (1-p)^g, and both u = (2^52 - v)/2^52 and
    1-p = (i+2-k)/(i+2) are exact rationals, so the model finds g by a search with a 128-bit fixed-point
-   enclosure [lo, hi] of (1-p)^(j+1); when u falls inside the enclosure widened by 2^-40 (where float
-   rounding in the crate could decide either way) it answers "ambiguous" instead of guessing. *)
+   enclosure [lo, hi] of (1-p)^(j+1); when u falls inside the enclosure widened by the relative margin
+   (j+64)*2^-50 it answers "ambiguous" instead of guessing. The margin covers the crate's float rounding:
+   the rounded 1-p moves the boundary (1-p)^j by about j*2^-53 relative, ln/division add a few 2^-52. *)
 From PDS Require Export Model.Rand.
 
 Definition FP : N := 2 ^ 128.
@@ -13,8 +14,8 @@ Fixpoint gap_search (num den U lo hi j : N) (fuel : nat) : option (N * bool) :=
   match fuel with
   | O => None
   | S f =>
-      if hi + hi / 2 ^ 40 + 1 <? U then Some (j, false)
-      else if U <=? lo - lo / 2 ^ 40 then gap_search num den U (lo * num / den) ((hi * num + den - 1) / den) (j + 1) f
+      if hi + hi * (j + 64) / 2 ^ 50 + 1 <? U then Some (j, false)
+      else if U <=? lo - lo * (j + 64) / 2 ^ 50 then gap_search num den U (lo * num / den) ((hi * num + den - 1) / den) (j + 1) f
       else Some (j, true)
   end.
 (* reservoirsampling.rs:137-142 : p = k/(i+2) (i = items seen before this add), u = 1 - v/2^52 *)
